@@ -177,9 +177,9 @@ func c20Replacements() []struct {
 }
 
 func TestC20_EnvelopeGrid(t *testing.T) {
-	st := NewStats("C20", "TestC20_EnvelopeGrid", "enumeration with the independent encoder around correctly signed material (7 algorithms in thorough, EdDSA+ES256 in quick; both profiles): tag in {none, 0..30, 61, 98, 18 nested twice} x array length 0..6; each of the four elements replaced by 20 other CBOR items and by indefinite-length / over-long-head forms; 2-element replacement pairs; 18 payload variants (raw map, double-wrapped, null, h'', h'f6', h'f7', array, int, text, tagged map, map+trailing, two maps, truncated map, ...) plus 19 tag numbers of every head width (incl. numbers whose last byte looks like a map head) x 8 tagged contents (null, undefined, array, int, bstr, text, map, tagged null); 0..3 trailing bytes; well-formed messages of the other COSE kinds around the same material (COSE_Sign with 0/1/2 signers incl. a correctly computed one, Mac0, Mac, Encrypt0, Encrypt, Sign1 with a counter-signature element) under 8 tags; the correct envelope in 13 text transport encodings (base64 in four alphabets, hex, data URI, base32, diagnostic notation, ...); 14 content-type / typ header values in either bucket x 6 payloads (claims as JSON text, '{}', 'null', base64 / hex of the claims, the claims map) each correctly signed; non-minimal tag/array heads; the TF-M Mac0 and Sign1 vectors and their tag-swapped variants. Every envelope is also given to Evidence objects with a past (decoded a good token / had claims attached / signed, possibly followed by a failed decode of garbage, a Mac0, a truncated token, a non-map payload), which must agree with a fresh decode. Oracle: DecodeEvidenceFromCOSE / UnmarshalCOSE success implies the independent classifier sees tag 18, 4-array, bstr, map, bstr holding exactly one map item, non-empty bstr, no trailing bytes. Non-trivial = still parses as CBOR and differs from a valid envelope in exactly one structural respect; distinct = grid cell")
+	st := NewStats("C20", "TestC20_EnvelopeGrid", "enumeration with the independent encoder around correctly signed material (7 algorithms in thorough, EdDSA+ES256 in quick; both profiles): tag in {none, 0..30, 61, 98, 18 nested twice} x array length 0..6; each of the four elements replaced by 20 other CBOR items and by indefinite-length / over-long-head forms; 2-element replacement pairs; 18 payload variants (raw map, double-wrapped, null, h'', h'f6', h'f7', array, int, text, tagged map, map+trailing, two maps, truncated map, ...) plus 19 tag numbers of every head width (incl. numbers whose last byte looks like a map head) x 8 tagged contents (null, undefined, array, int, bstr, text, map, tagged null); 0..3 trailing bytes; correct envelopes of exactly 2^12, 2^16, 2^20 (+-1) bytes alone and with trailing bytes; well-formed messages of the other COSE kinds around the same material (COSE_Sign with 0/1/2 signers incl. a correctly computed one, Mac0, Mac, Encrypt0, Encrypt, Sign1 with a counter-signature element) under 8 tags; the correct envelope in 13 text transport encodings (base64 in four alphabets, hex, data URI, base32, diagnostic notation, ...); 14 content-type / typ header values in either bucket x 6 payloads (claims as JSON text, '{}', 'null', base64 / hex of the claims, the claims map) each correctly signed; non-minimal tag/array heads; the TF-M Mac0 and Sign1 vectors and their tag-swapped variants. Every envelope is also given to Evidence objects with a past (decoded a good token / had claims attached / signed, possibly followed by a failed decode of garbage, a Mac0, a truncated token, a non-map payload), which must agree with a fresh decode. Oracle: DecodeEvidenceFromCOSE / UnmarshalCOSE success implies the independent classifier sees tag 18, 4-array, bstr, map, bstr holding exactly one map item, non-empty bstr, no trailing bytes. Non-trivial = still parses as CBOR and differs from a valid envelope in exactly one structural respect; distinct = grid cell")
 	st.Exhaustive = true
-	st.Require = []string{"accepted", "rejected", "tag", "arity", "element", "payload", "trailing", "vector", "transcoded", "header-x-payload", "cose-kind"}
+	st.Require = []string{"accepted", "rejected", "tag", "arity", "element", "payload", "trailing", "vector", "transcoded", "header-x-payload", "cose-kind", "size"}
 	defer st.Flush(t)
 	registerMu.Lock()
 	defer registerMu.Unlock()
@@ -527,6 +527,45 @@ func TestC20_EnvelopeGrid(t *testing.T) {
 			// truncations of the canonical envelope
 			for cut := 0; cut < len(good); cut += 1 + len(good)/40 {
 				run(fmt.Sprintf("%struncate%d", pre, cut), "truncation", good[:cut], cut > 2)
+			}
+		}
+	}
+	// correct envelopes of EXACT sizes (2^12, 2^16, 2^20 bytes and one byte
+	// more / less; the free-text claim is padded), alone and followed by
+	// trailing bytes: a size limit must not cut the input before the
+	// "nothing after it" test
+	{
+		kp := keyFor(icose.EdDSA, 0)
+		prot := icose.ProtectedAlg(kp.Alg)
+		build := func(vsiLen int) []byte {
+			m := baseValid(P2, 1)
+			m.VSI = sp(strings.Repeat("v", vsiLen))
+			pl := m.WireBytes()
+			sg, err := icose.Sign(kp.Alg, kp.Priv, prot, pl)
+			if err != nil {
+				t.Fatalf("VERIF-INFRA: %v", err)
+			}
+			return icbor.Encode(icose.Envelope(prot, icbor.Map(), pl, sg))
+		}
+		for _, size := range []int{1 << 12, 1 << 16, 1 << 20} {
+			for _, delta := range []int{-1, 0, 1} {
+				want := size + delta
+				n := want - len(build(0))
+				var tok []byte
+				for try := 0; try < 12 && n > 0; try++ {
+					tok = build(n)
+					if len(tok) == want {
+						break
+					}
+					n -= len(tok) - want
+				}
+				if len(tok) != want {
+					continue // head widths make this exact size unreachable
+				}
+				run(fmt.Sprintf("size/%d", want), "size", tok, true)
+				for _, tr := range [][]byte{{0x00}, {0xff}, {0xf6}, {0xd2, 0x84, 0x40}} {
+					run(fmt.Sprintf("size/%d+trailing=%x", want, tr), "trailing", append(append([]byte{}, tok...), tr...), true)
+				}
 			}
 		}
 	}
